@@ -461,13 +461,18 @@ MANIFEST_TEXT = {
                    "(query results only; shape unobservable); float rounding outside the dyadic domain not covered.",
         technique="Coq proof (invariant + refinement by induction over histories, pruning lemmas from C18) on a hand-written Gallina model + differential correspondence check"),
     "C17": dict(
-        level_text="Proof: Notify consults exactly the dot-ancestors of the normalised name (never a textual prefix), calls nobody when "
-                   "disabled / for an empty name / after Reset, and k nested StartBatch/EndBatch pairs send BatchMode(true) once on the "
-                   "outermost start and BatchMode(false) once on the matching end to the same targets -- Coq theorems over an executable "
-                   "three-map model. Exactly-once delivery to the registered targets in priority order, Unregister, RegisterFromNotifier "
-                   "as a union, panic isolation and the batch levels are decided per run by the correspondence check and by a plain "
-                   "registration-set oracle applied to the implementation's call log after every operation; concurrency by the race detector.",
-        level_note="Trusted: Coq kernel, extraction, drivers, harness, Go race detector; model hand-written, tied by correspondence on sampled histories.",
+        level_text="Proof: for every history over two notifiers of Register, RegisterFromNotifier (both directions), Unregister, SetEnabled, "
+                   "Reset, StartBatch/EndBatch and Notify, each Notify delivers exactly what a registration relation subjected to the same "
+                   "operations prescribes: nobody while disabled or for an empty name, otherwise every target registered for the name or a "
+                   "dot-ancestor (never a textual prefix) exactly once, with the priority of the most specific matching name (refinement "
+                   "theorem; the three maps stay mutually consistent as invariants: the by-target map lists every name of a target, names "
+                   "are unique in the by-name map); Unregister/Reset remove, the merge is a priority-overriding union; k nested "
+                   "StartBatch/EndBatch pairs send BatchMode(true) once on the outermost start and BatchMode(false) once on the matching "
+                   "end to the same targets -- Coq theorems over an executable three-map model. The final sort by priority (sort.Slice), "
+                   "panic isolation and concurrency are decided per run: correspondence on call sequences (up to the unstable sort), a "
+                   "registration-set oracle on the implementation's call log, the race detector.",
+        level_note="Trusted: Coq kernel, extraction, drivers, harness, Go race detector; model hand-written, tied by correspondence on sampled "
+                   "histories; ordering of the delivered calls by priority is Go's sort, checked per run.",
         technique="Coq proof on a hand-written Gallina model + differential correspondence check (+ race detector for the concurrency clause)"),
     "C11": dict(
         level_text="Proof: in the store model of errs, Append(acc, args) yields exactly items(acc) ++ items(args...) in order (aggregates "
